@@ -82,6 +82,6 @@ Print Assumptions C11_unbounded_cols_rows_union.
 
 (* the absolute form of the single column A:A, "$A$0:$A$0", reads back as a cell (1, 0) *)
 Theorem C11_unbounded_abs_roundtrip_refuted :
-  exists a, unbounded_on_sheet a /\ create (abs_address a) [] None = Ok (VA (ACell [83] 1 0)).
+  exists a, unbounded_on_sheet a /\ bind (abs_address a) (fun t => create t [] None) = Ok (VA (ACell [83] 1 0)).
 Proof. exists (ARange [83] 1 0 1 0). split; [left; unfold MAX_COL; lia|vm_compute; reflexivity]. Qed.
 Print Assumptions C11_unbounded_abs_roundtrip_refuted.
